@@ -507,6 +507,43 @@ def _frac32(x):
     return Fraction(*float(np.float32(x)).as_integer_ratio())
 
 
+def large_object_indices(ctx: Ctx, r: random.Random):
+    """C02_patch_indices_window holds for EVERY object size; small experiments cannot tell integer index
+    arithmetic from float32 arithmetic, which goes wrong once H*W exceeds 2**24.  The real
+    `_set_patch_indices` is therefore also run on a few huge (H, W) with scan positions near the far
+    corner, on a stub carrying exactly the attributes it reads, against the closed form of the theorem."""
+    import torch
+    from types import SimpleNamespace
+    from quantem.diffractive_imaging.dataset_models import PtychographyDatasetBase as Base
+
+    def fi(n):
+        return np.array([i if i < (n + 1) // 2 else i - n for i in range(n)], dtype=np.int64)
+
+    for H, W in [(5000, 5000), (4097, 4099), (70, 300000), (9001, 4000)][:ctx.budget(2, 4)]:
+        roi = r.choice([(4, 4), (6, 4), (5, 7)])
+        pos = [[H - 1 - r.random() * 3, W - 1 - r.random() * 3], [r.uniform(0, H - 1), r.uniform(0, W - 1)],
+               [H // 2 + 0.25, W - 2.25]]
+        stub = SimpleNamespace(scan_positions_px=torch.tensor(pos, dtype=torch.float32), roi_shape=np.array(roi),
+                               device="cpu", _obj_shape_full_2d=lambda pad, H=H, W=W: (H, W))
+        Base._set_patch_indices(stub, (0, 0))
+        got = stub._patch_indices.numpy().astype(np.int64)
+        p32 = np.asarray(pos, dtype=np.float32)
+        r0 = np.round(p32[:, 0]).astype(np.int64)
+        c0 = np.round(p32[:, 1]).astype(np.int64)
+        want = ((r0[:, None, None] + fi(roi[0])[None, :, None]) % H) * W + ((c0[:, None, None] + fi(roi[1])[None, None, :]) % W)
+        ctx.count(("large-object-indices", H, W, roi), nontrivial=True)
+        ctx.dist("patch_indices/large-object")
+        ctx.cov["traces_validated_against_impl"] += 1
+        if got.shape != want.shape or not np.array_equal(got, want):
+            bad = np.argwhere(got != want)[0] if got.shape == want.shape else None
+            ctx.violation("patch-indices-large-object",
+                          "_set_patch_indices on a %dx%d object (ROI %s): flat index of probe %s pixel %s is %s, the window "
+                          "formula of C02_patch_indices_window gives %s (H*W = %d > 2**24: float32 index arithmetic)" % (
+                              H, W, roi, None if bad is None else int(bad[0]), None if bad is None else bad[1:].tolist(),
+                              None if bad is None else int(got[tuple(bad)]), None if bad is None else int(want[tuple(bad)]), H * W),
+                          {"kind": "large-object-indices", "H": H, "W": W, "roi": list(roi), "positions": pos})
+
+
 def correspondence_items(res: CaseResult, rng: random.Random):
     """[(label, coq_expr, expected_python_value, comparer)] for one evaluated case"""
     import torch
@@ -654,6 +691,7 @@ def run(ctx: Ctx):
     import torch  # noqa: F401  (import cost ~5 s)
     torch.set_num_threads(min(4, torch.get_num_threads()))
     r = ctx.rng
+    large_object_indices(ctx, r)
     plan = ([("main", ctx.budget(28, 400))] + [("constant", ctx.budget(4, 40))] + [("odd", ctx.budget(3, 20))]
             + [("odd-constant", ctx.budget(2, 12))])
     kinds = ["complex", "pure_phase", "potential"]
